@@ -79,6 +79,8 @@ class Unknown:
 
 
 class SqrtVal:
+    rounded = False
+
     def __init__(self, x):
         self.x = x
 
